@@ -301,7 +301,15 @@ impl DltStandardHeader {
             htyp |= DLT_STD_HDR_HAS_EXT_HDR;
             len += DLT_EXT_HEADER_SIZE as u16;
         }
-        len += payload.len() as u16; // todo check for max len...
+        // a msg with std header, ... and payload cannot be longer than the 16 bit len field allows:
+        let total_len = len as usize + payload.len();
+        if total_len > u16::MAX as usize {
+            return Err(std::io::Error::new(
+                std::io::ErrorKind::InvalidInput,
+                format!("msg too long for dlt: {} bytes", total_len),
+            ));
+        }
+        len = total_len as u16;
 
         let b2 = &u16::to_be_bytes(len);
         let b1 = &[htyp, std_hdr.mcnt, b2[0], b2[1]];
@@ -784,6 +792,25 @@ impl DltMessage {
     ///
     /// Payload endian format is taken from the msg.
     pub fn to_write(&self, writer: &mut impl std::io::Write) -> Result<(), std::io::Error> {
+        // msgs that dont fit into the 16 bit len field (e.g. from converted text lines) cannot be written:
+        let total_len = DLT_MIN_STD_HEADER_SIZE
+            + if self.standard_header.has_timestamp() {
+                4
+            } else {
+                0
+            }
+            + if self.extended_header.is_some() {
+                DLT_EXT_HEADER_SIZE
+            } else {
+                0
+            }
+            + self.payload.len();
+        if total_len > u16::MAX as usize {
+            return Err(std::io::Error::new(
+                std::io::ErrorKind::InvalidInput,
+                format!("msg too long for dlt: {} bytes", total_len),
+            ));
+        }
         let storage_header = DltStorageHeader::from_msg(self);
         storage_header.to_write(writer)?;
         DltStandardHeader::to_write(
